@@ -86,6 +86,8 @@ def run(ctx):  # noqa: C901, PLR0912, PLR0915
     # the scope a provider publishes is that of its one associated location: set_location leaves no former location associated
     from .c10 import disassociate_all_marks
     disassociate_all_marks(ctx, 'C16.R2')
+    from . import common
+    common.entity_getters_hand_out_copies(ctx, 'C16.R2')
     # ------------------------------------------------------------------ R1
     esc = chain_escapes(repo, LOC, 'filter_services_inside')
     sites_total = sum(len(raise_sites(repo.resolve_method(LOC, m))) for m in
